@@ -13,5 +13,13 @@ for name, mod in sorted(prog.modules.items()):
         fn = node.value if isinstance(node, ast.Assign) else node
         a = fn.args
         out[key] = [p.arg for p in a.posonlyargs + a.args + a.kwonlyargs]
-json.dump({"functions": out}, open(KNOWN, "w"), indent=0, sort_keys=True)
+lit = {}
+for name, mod in sorted(prog.modules.items()):
+    for key, node, cls, encl in function_keys(mod.tree, name):
+        if isinstance(node, ast.Assign):
+            continue
+        n = sum(1 for x in ast.walk(node) if isinstance(x, ast.For) and isinstance(x.iter, (ast.Tuple, ast.List)))
+        if n:
+            lit[key] = n
+json.dump({"functions": out, "literal_loops": lit}, open(KNOWN, "w"), indent=0, sort_keys=True)
 print(len(out), "functions frozen")
